@@ -3,8 +3,8 @@ package main
 // Phase-2 evaluation: C12 ($repeat), C13 (interpolation, $env), C14 ($encode/$decode), C07.encode.
 
 import (
-	"go/types"
 	"fmt"
+	"go/types"
 	"sort"
 	"strings"
 
